@@ -2,6 +2,7 @@ import Mathlib.LinearAlgebra.Matrix.Rank
 import Mathlib.LinearAlgebra.Matrix.NonsingularInverse
 import Mathlib.Data.Complex.Basic
 import Mathlib.LinearAlgebra.Matrix.Charpoly.Basic
+import PkLA.DmdReal
 /-! # C13 — DMD eigenvalues, modes and rank agree with the returned operator
 
 Over `Matrix _ _ ℂ`.  `Dmd` / `Dmdc` return `A_r = real(V Λ V⁺)` with `V⁺` a left inverse of the mode matrix
@@ -119,5 +120,24 @@ theorem C13_spectrum (V : Matrix n r ℂ) (Vp : Matrix r n ℂ) (lam : r → ℂ
     exact (mul_eq_zero.mp h).resolve_left (hp _)
 
 end charpoly
+
+/-! ### "that block is real": taking the real part loses nothing -/
+
+/-- the eigenpairs of a real matrix come in conjugate pairs (`σ` pairs each mode with its conjugate; a real eigenpair is
+its own partner).  For such `lam`, `V` and the Moore–Penrose left inverse `V⁺ = (VᴴV)⁻¹Vᴴ` that `lstsq` computes for a
+full-column-rank `V`, the reconstruction `V Λ V⁺` IS a real matrix … -/
+theorem C13_reconstruction_real (V : Matrix n r ℂ) (lam : r → ℂ) (σ : Equiv.Perm r)
+    (hlam : ∀ i, lam (σ i) = star (lam i)) (hVσ : ∀ a i, V a (σ i) = star (V a i))
+    (hV : IsUnit (Vᴴ * V).det) :
+    ∃ A : Matrix n n ℝ, V * diagonal lam * ((Vᴴ * V)⁻¹ * Vᴴ) = A.map Complex.ofReal :=
+  PkLA.reconstruction_exists_real V lam σ hlam hVσ hV
+
+/-- … so the published block `A = real(V Λ V⁺)` still has the published eigenvalues and modes as eigenpairs -/
+theorem C13_real_part_eigpairs (V : Matrix n r ℂ) (lam : r → ℂ) (σ : Equiv.Perm r)
+    (hlam : ∀ i, lam (σ i) = star (lam i)) (hVσ : ∀ a i, V a (σ i) = star (V a i))
+    (hV : IsUnit (Vᴴ * V).det) (A : Matrix n n ℝ)
+    (hA : ∀ a b, A a b = ((V * diagonal lam * ((Vᴴ * V)⁻¹ * Vᴴ)) a b).re) (i : r) :
+    (A.map Complex.ofReal) *ᵥ (fun a => V a i) = lam i • (fun a => V a i) :=
+  PkLA.real_part_keeps_eigenpairs V lam σ hlam hVσ hV A hA i
 
 end Pk.C13
